@@ -311,7 +311,9 @@ class Exec:
     # ------------------------------------------------------------ top level
     def verify(self, qual):
         """generate the obligations of one function against its contract"""
-        fi = self.repo.funcs[qual]
+        # `qual#variant`: a second contract of the same function (e.g. the
+        # multi-language mode of tex2txt)
+        fi = self.repo.funcs[qual.split('#')[0]]
         c = self.contracts.get(qual)
         if c is None:
             raise EngineError('no contract for ' + qual)
